@@ -155,6 +155,19 @@ CHECKS = {
               "each object still equal to its old map at rescaled parameters with zero-padded coordinates (L2)."),
         note=TB + " C12: inherits the findings about jump knots (order elevation) and small periodic bases.",
         design='DESIGN.md section 8, C12'),
+    'C13': dict(
+        engine='factories',
+        technique='Coq proof (conic identity, Bernstein/quartic weights from Cox-de Boor, regenerated circle nets and circle_segment rule, rotation placement, revolve/extrude sections) + regenerated kernels + differential run of control nets vs the extracted model + implicit-equation evaluation of every factory',
+        text=("PARTIAL proof level. Theorems in Properties/C13.v: three arc control points blended with quadratic Bernstein weights satisfy X^2+Y^2=r^2 W^2; quadratic B-splines on doubled "
+              "knots are Bernstein weights and quartic B-splines on uniformly tripled knots have the stated closed forms (from the Cox-de Boor spec); the p2C0 and p4C1 nets regenerated from "
+              "curve_factory.circle lie on the unit circle span by span (sqrt(2) read as the real square root); the regenerated circle_segment loop produces (r cos(i dt), r sin(i dt), w_i), "
+              "every span lies on the circle, the arc runs from angle 0 to theta and the weights are positive; the placement built from the regenerated rotation_matrix maps planar points into "
+              "the plane orthogonal to the normal at equal distance, z to the normal, recovers the requested x-axis and is an isometry; revolve sections are the profile rotated by the sweep "
+              "angle, extrude sections the translated profile. Not proved (checked at L2 only): ellipse/n_gon/polygon/square/cube, disc/sphere/torus/cylinder composites, three-point arcs, "
+              "orientation, and the atan2/acos glue. Correspondence: L1 the regenerated nets and Model/Factory.v run in Q on libm's exact cos/sin/sqrt values vs the control points of circle, "
+              "circle_segment, revolve, extrude; L2 every factory with random placements evaluated at random parameters against the implicit equation of its shape, start point, orientation."),
+        note=TB + " C13: libm cos/sin/sqrt/atan2 are read as the real functions (floating-point rounding is outside the model; the L2 tolerance is 1e-9 relative).",
+        design='DESIGN.md section 8, C13'),
 }
 
 PENDING_REASON = "not claimed in this revision: model/theorems for this property are still being built (see DESIGN.md section 8 for the plan)"
